@@ -35,9 +35,10 @@ type c09Cut struct {
 }
 
 type c09Spec struct {
-	K          int      `json:"k"`     // progress notifications before the response
-	Prime      bool     `json:"prime"` // priming event (id only) first
-	IDs        bool     `json:"ids"`   // events carry ids
+	K          int      `json:"k"`                    // progress notifications before the response
+	Prime      bool     `json:"prime"`                // priming event (id only) first
+	PrimeBare  bool     `json:"prime_bare,omitempty"` // the priming event has no event: name (id and empty data only)
+	IDs        bool     `json:"ids"`                  // events carry ids
 	RetryField bool     `json:"retry_field"`
 	MaxRetries int      `json:"max_retries"`
 	FirstCut   c09Cut   `json:"first_cut"`
@@ -47,7 +48,11 @@ type c09Spec struct {
 
 func genC09(r *vh.Rand) c09Spec {
 	s := c09Spec{K: r.Range(0, 4), Prime: r.Bool(), IDs: !r.Chance(1, 10), RetryField: r.Chance(1, 4), MaxRetries: []int{1, 2, 3, 5}[r.Intn(4)]}
+	s.PrimeBare = s.Prime && r.Bool()
 	s.FirstCut = c09Cut{At: r.Intn(700), Kind: r.Choose("error", "eof")}
+	if s.Prime && r.Chance(1, 4) {
+		s.FirstCut.At = r.Range(20, 40) // right after the priming event: it is all the client has
+	}
 	if r.Chance(1, 8) {
 		s.FirstCut.At = -1
 	}
@@ -176,7 +181,11 @@ func (s *c09Server) build(id json.RawMessage, tok any) {
 		s.text = append(s.text, t)
 	}
 	if s.spec.Prime {
-		add("prime", "")
+		if s.spec.PrimeBare {
+			add("", "")
+		} else {
+			add("prime", "")
+		}
 	}
 	tb, _ := json.Marshal(tok)
 	for j := 1; j <= s.spec.K; j++ {
